@@ -85,8 +85,17 @@ func c08Check(c c08Case, r *ev.Rec) error {
 	comp := protocompile.Compiler{Resolver: perturbingResolver(c.Files, run), MaxParallelism: c.Par, Reporter: mon}
 	var res int
 	var err error
+	// what the reporter had seen at the moment Compile returned decides what Compile must return: a task that is
+	// still running then (Compile returns at the first failed requested file) may call the reporter later, and such
+	// a late call - even one at which the reporter starts to abort - cannot have influenced the returned error
+	var nerr, nwarn int
+	var aborted bool
+	var abortErr error
 	fin, dump := withWatchdog(30*time.Second, func() {
 		out, e := comp.Compile(context.Background(), c.Names...)
+		mon.mu.Lock()
+		nerr, nwarn, aborted, abortErr = mon.errors, mon.warnings, mon.aborted, mon.abortErr
+		mon.mu.Unlock()
 		res, err = len(out), e
 	})
 	if !fin {
@@ -95,16 +104,19 @@ func c08Check(c c08Case, r *ev.Rec) error {
 	// let straggling task goroutines finish so that late reporter calls are observed too
 	time.Sleep(2 * time.Millisecond)
 	mon.mu.Lock()
-	nerr, nwarn, aborted, after, abortErr := mon.errors, mon.warnings, mon.aborted, mon.afterAbort, mon.abortErr
+	after, lateErrors := mon.afterAbort, mon.errors-nerr
 	mon.mu.Unlock()
+	if lateErrors > 0 {
+		r.Label("reporter-called-after-compile-returned")
+	}
 	if mon.concurrent.Load() {
 		return fmt.Errorf("the reporter was invoked concurrently (parallelism %d)\n%s", c.Par, showFiles(c.Files))
 	}
+	if after > 0 {
+		return fmt.Errorf("%d further error(s) reached the reporter after it had returned an error (abort at %d)\n%s", after, c.AbortAt, showFiles(c.Files))
+	}
 	switch {
 	case aborted:
-		if after > 0 {
-			return fmt.Errorf("%d further error(s) reached the reporter after it had returned an error (abort at %d)\n%s", after, c.AbortAt, showFiles(c.Files))
-		}
 		if err != abortErr { //nolint:errorlint // identity is the contract
 			return fmt.Errorf("the reporter returned %q at error %d but Compile returned %q (must be the same error)\n%s", abortErr, c.AbortAt, err, showFiles(c.Files))
 		}
